@@ -30,6 +30,7 @@ def shards(tier, seed):
             for part in range(1 if tier == "quick" else 6):
                 out.append({"name": f"{kind}-{cb}-{part}", "kind": kind, "cb": cb, "part": part, "tier": tier, "seed": seed})
         out.append({"name": f"{kind}-allcuts", "kind": kind, "cb": "ok", "allcuts": True, "tier": tier, "seed": seed})
+        out.append({"name": f"{kind}-long", "kind": kind, "cb": "raise_some", "long": True, "tier": tier, "seed": seed})
     out.append({"name": "conformance-real-tcp", "conformance": True, "tier": tier, "seed": seed})
     return out
 
@@ -201,6 +202,24 @@ def run_shard(spec, acc):
     kind, cb = spec["kind"], spec["cb"]
     rng = gen.rng_for(spec["seed"], ID, spec["name"])
     quick = spec["tier"] == "quick"
+    if spec.get("long"):
+        # one client instance, hundreds of packets with many undeliverable ones in between: what is delivered must not
+        # depend on how much (or how much garbage) the client has already processed
+        for rep in range(2 if quick else 10):
+            packets, pool = build_stream(kind, dbx, rng, 300 if quick else 1200)
+            extra = []
+            for pkt in packets:
+                extra.append(pkt)
+                if rng.random() < 0.3:
+                    extra.append(malformed(kind, rng))
+            packets = extra
+            stream = b"".join(packets)
+            want, undel = expected_messages(kind, packets, {})
+            for label, cuts in (("reads_of_100", list(range(100, len(stream), 100))), ("reads_of_7", list(range(7, len(stream), 7))),
+                                ("all_at_once", [])):
+                sim, stats = run_one(kind, stream, cuts, 0, {}, cb)
+                judge(sim, stats, want, acc, kind, "long/" + label, cuts, {}, cb, stream, undel, True)
+        return
     if spec.get("allcuts"):
         # short stream: a cut at every single offset, and every pair of offsets for the shortest one
         packets, pool = build_stream(kind, dbx, rng, 4)
